@@ -546,7 +546,7 @@ pub fn run_pem(out_path: &str, tier: &str) {
 	// load, offered to each of rcgen's PEM loaders
 	#[cfg(feature = "crypto")]
 	for o in origins(tier, &mut rng) {
-		for entry in ["auto-pem", "auto-slice", "pem-explicit", "der-explicit"] {
+		for entry in ["auto-pem", "auto-slice", "pem-explicit", "der-explicit", "pkcs8-explicit", "pkcs8-pem-explicit"] {
 			let told = if entry.ends_with("explicit") { alg_static(&o.info.alg) } else { None };
 			if entry.ends_with("explicit") && told.is_none() {
 				continue;
